@@ -212,7 +212,7 @@ class Sched:
         self.choices.append(c)
         self.points.append(('c', n))
         if self.record:
-            self.trace.append((self.cur.name if self.cur else '?', 'choose', label, c))
+            self.trace.append((base_name(self.cur.name) if self.cur else '?', 'choose', label, c))
         return c
 
     def _decide(self, kind, info):
@@ -237,7 +237,7 @@ class Sched:
         self.points.append(('s', len(alts)))
         t, how = alts[c]
         if self.record:
-            self.trace.append((me.name if me else '?', kind, _fmt(info), f'->{t.name}' + ('(timeout)' if how == 'timeout' else '')))
+            self.trace.append((f'T{me.idx}:{base_name(me.name)}' if me else '?', kind, _fmt(info), f'->T{t.idx}:{base_name(t.name)}' + ('(timeout)' if how == 'timeout' else '')))
         if how == 'timeout':
             if t.deadline > self.now:
                 self.now = t.deadline
